@@ -12,5 +12,9 @@ CONSTANTS
   ObserveCb = TRUE
   TrackQuiet = FALSE
   UnitMs = 1000
+  Boot <- NoNodes
+  CrashSet <- AllNodes
+  StopSet <- AllNodes
+  Sync = FALSE
 INVARIANTS TypeOK
 PROPERTIES EventuallyAgreed HashCatchesUp
